@@ -12,8 +12,10 @@ import (
 )
 
 // JNode is a generic JSON tree:
-//   {"j":"obj","kv":[[keyleaf, node],...]}  {"j":"arr","e":[node,...]}
-//   {"j":"str"|"num"|"bool","v":leaf}       {"j":"null"}
+//
+//	{"j":"obj","kv":[[keyleaf, node],...]}  {"j":"arr","e":[node,...]}
+//	{"j":"str"|"num"|"bool","v":leaf}       {"j":"null"}
+//
 // Keys are leaves too ("=name" literal, "sN" pool string).
 type JNode struct {
 	J  string   `json:"j"`
